@@ -354,7 +354,7 @@ def run(ck, only=None):
             bad = [c for c in live if c.tag in tags]
             if not bad:
                 return res + [(c, "rust-rejects", "; ".join(sorted(set(msgs))[:2])[:200], None) for c in live]
-            bt = getattr(probes.rustc_diagnose, "last_by_tag", {})
+            bt = probes.last_by_tag()
             for c in bad:
                 res.append((c, "rust-rejects", " | ".join(sorted(set(bt.get(c.tag, msgs[:2]))))[:250], None))
             live = [c for c in live if c.tag not in tags]
